@@ -240,8 +240,15 @@ class Program:
                 self.adts[x.path] = x
             for fn in d["fns"]:
                 x = Fn(fn, crate)
-                # duplicated paths (e.g. cfg variants) keep the first
-                self.fns.setdefault(x.path, x)
+                # duplicated paths: generic impls that differ only in their type arguments (`impl From<&A> for T` / `impl From<&B>
+                # for T`, the two `Extend` impls of one builder) print the same normalised path.  The first keeps the plain path
+                # (call resolution is by that path); the others stay visible to rules that iterate over functions under `path#n`.
+                if x.path in self.fns:
+                    k = 2
+                    while "%s#%d" % (x.path, k) in self.fns:
+                        k += 1
+                    x.path = "%s#%d" % (x.path, k)
+                self.fns[x.path] = x
             for m in d["mir"]:
                 x = Mir(m, crate)
                 if x.kind == "Closure":
